@@ -100,3 +100,32 @@ fn c01_uenum3() {
         assert!(e.pos == 0, "C19: tag error not reported at the tag byte");
     }
 }
+
+/// C18: assigning a larger variant whose variant gate passes but whose container field then fails must leave a VALID value
+/// (whatever variant it is).  The old variant B(u8, Bool) has a constrained byte exactly where C's `offset` is written, so an
+/// initialiser that writes fields before (or without) switching the tag leaves an invalid Bool behind.
+#[kani::proof]
+#[kani::unwind(16)]
+fn c18_uenumb_valid_after_failed_field() {
+    // BOUNDED: 12-byte buffer, current value any valid B(x, flag); replacement C { offset, bytes: 3 items } (does not fit)
+    let mut back: [u8; 16] = kani::any();
+    kani::assume((back.as_ptr() as usize) % 8 == 0);
+    let x: u8 = kani::any();
+    let flag: bool = kani::any();
+    let offset: u32 = kani::any();
+    let e: [u8; 3] = kani::any();
+    let b = &mut back[..12];
+    let cur = UEnumB::new_in_place(b, UEnumBInitB(x, flatty::portable::Bool::from(flag))).unwrap();
+    let r = cur.assign_in_place(UEnumBInitC { offset, bytes: flatty::vec::FromArray(e) }).map(|_| ());
+    assert!(r.is_err(), "C18: a replacement that cannot fit was accepted");
+    assert!(UEnumB::validate(cur.as_bytes()).is_ok(), "C18: target bytes no longer validate after a failed assignment");
+    let _ = cur.size();
+    match cur.as_ref() {
+        UEnumBRef::A => {}
+        UEnumBRef::B(p, q) => { let _ = (*p, bool::from(*q)); }
+        UEnumBRef::C { offset: o, bytes } => { assert!(bytes.len() <= bytes.capacity(), "C18: invalid container left behind"); let _ = *o; }
+    }
+    // a second assignment is clean
+    let r2 = cur.assign_in_place(UEnumBInitA).map(|_| ());
+    assert!(r2.is_ok(), "C18: a second assignment after a failed one does not succeed");
+}
